@@ -1,9 +1,9 @@
 (* C05 - Force of infection follows the mixing, strain and infectiousness definition.
-   Statements only; proofs in Proofs/FoiProofs.v. *)
+   Statements only; proofs in Proofs/FoiProofs.v and Proofs/InfectiousnessProofs.v. *)
 From Coq Require Import QArith Qcanon List String Bool.
 Import ListNotations.
 From S2 Require Import Base.Num Base.Arr Model.Expr Model.Struct Model.Rates Gen.MiscGen
-     Proofs.NumQc Proofs.FoiProofs Props.Examples.
+     Proofs.NumQc Proofs.FoiProofs Proofs.InfectiousnessProofs Props.Examples.
 
 (* the kernel translated from model_impl.get_force_of_infection is the model's *)
 Theorem C05_kernel_is_translated :
@@ -55,9 +55,17 @@ Theorem C05_category_order :
 Proof. exact mixcats_order. Qed.
 Print Assumptions C05_category_order.
 
-(* partial: that compartment_infectiousness is the fold of the strata's adjustments in
-   stratification order (Multiply scales, Overwrite replaces) is checked by the correspondence and
-   the brute-force oracle only *)
+(* the infectiousness vector used above: compartment by compartment it is the chain of the
+   infectiousness adjustments that apply to the compartment (its name, and the stratum it belongs to),
+   in stratification order, starting from 1: Multiply scales the running value, Overwrite replaces it
+   (so an Overwrite discards what earlier stratifications did, and later ones act on top of it) *)
+Theorem C05_infectiousness_chain :
+  forall (O : NumOps) (p : env O) (m : model) i,
+    (i < List.length (m_comps m))%nat ->
+    nth i (compartment_infectiousness O m p) (f0 O) = inf_spec O p m (nth i (m_comps m) dcomp).
+Proof. exact compartment_infectiousness_spec. Qed.
+Print Assumptions C05_infectiousness_chain.
+
 
 (* non-vacuity: example model (age mixing 2x2, infectiousness x1/2 on I young): the hypotheses hold
    with k = 1 and the multiplier of the first infection flow is the definition's value *)
